@@ -110,7 +110,7 @@ PLANS = {
                  witnesses=['user_setting_preserved', 'fixedpoint_checked', 'dup_checked', 'csv_roundtrip', 'reinit_checked', 'server_v6_linklocal'],
                  min_outcomes=1, deadline=(200, 400)),
             _job('userwins', 'userwins',
-                 witnesses=['user_setting_preserved', 'system_value_applied', 'fixedpoint_checked', 'dup_checked', 'csv_roundtrip', 'reinit_checked'],
+                 witnesses=['user_setting_preserved', 'system_value_applied', 'fixedpoint_checked', 'dup_checked', 'csv_roundtrip', 'reinit_checked', 'servers_set_while_reload_was_parsing'],
                  min_outcomes=3, deadline=(100, 400)),
         ],
     },
